@@ -120,6 +120,28 @@ func c02Check(re *regexp2.Regexp, cre *compat.Regexp, s string) *Violation {
 		if v := safely("compat", s, func() *Violation { return c02Compat(cre, s, R, off, S) }); v != nil {
 			return v
 		}
+	} else {
+		// right-to-left is not regexp syntax, so there is no external reference; but the adapter's find-all
+		// methods must at least list the same matches as each other (two of them delegate to the core's
+		// find-all, five iterate themselves)
+		if v := safely("compat", s, func() *Violation {
+			for _, n := range []int{-1, 2} {
+				a := cre.FindAllStringIndex(s, n)
+				bsub := cre.FindAllStringSubmatchIndex(s, n)
+				c := cre.FindAllSubmatchIndex([]byte(s), n)
+				if len(a) != len(bsub) || len(a) != len(c) {
+					return viob("compat", s, "right-to-left: FindAllStringIndex(n=%d)=%v but FindAllStringSubmatchIndex=%v FindAllSubmatchIndex=%v", n, a, bsub, c)
+				}
+				for i := range a {
+					if a[i][0] != bsub[i][0] || a[i][1] != bsub[i][1] || a[i][0] != c[i][0] || a[i][1] != c[i][1] {
+						return viob("compat", s, "right-to-left: FindAllStringIndex(n=%d)=%v but FindAllStringSubmatchIndex=%v FindAllSubmatchIndex=%v", n, a, bsub, c)
+					}
+				}
+			}
+			return nil
+		}); v != nil {
+			return v
+		}
 	}
 	// 6. Replace / ReplaceFunc / Split visit exactly the chain
 	if v := safely("replace", s, func() *Violation { return c02Replace(re, s, R, off, S, rtl) }); v != nil {
